@@ -530,6 +530,20 @@ class C03(Property):
             known = spec["model_known"]
         if not spec_ok:
             detail = f"spec: {spec['why']}; implementation {obs['clusters']}" + ("; " + detail if detail else "")
+        # output-level reading of "dropped when the cluster of one of its SUPERIORS covers its core genes":
+        # on a linear record no reported protocluster may have its core inside the (final, extended) core of a
+        # reported protocluster of one of the superiors its rule object lists (the harness builds DetectionRule
+        # objects directly, so the list is used as given)
+        if spec_ok and wf and not case["circ"]:
+            sups: Dict[str, set] = {r["name"]: set(r["sup"]) for r in case["rules"]}
+            def inside(inner: Dict[str, Any], outer: Dict[str, Any]) -> bool:
+                return all(any(o[0] <= i[0] and i[1] <= o[1] for o in outer["parts"]) for i in inner["parts"])
+            for low in obs["clusters"]:
+                for high in obs["clusters"]:
+                    if high["rule"] in sups.get(low["rule"], ()) and inside(low["core"], high["core"]):
+                        spec_ok = False
+                        detail = (f"spec: protocluster of {low['rule']} with core {low['core']} is reported although the core "
+                                  f"{high['core']} of its superior {high['rule']} covers it; " + detail)
         n = len(obs["clusters"])
         tags.append(f"clusters{min(n, 5)}")
         tags.append(f"maxchain{min(spec['maxgroup'], 4)}")
